@@ -101,7 +101,11 @@ def run_case(case):
         sig += "|intcoord"
     x0, y0, c0 = x.copy(), y.copy(), coord.copy()
     try:
-        if case["via"] == "func":
+        if case["via"] == "func" and sum(case["rs"]) % 4 == 1:
+            # documented signatures (input, coord[, shape], kernel, width, param), positional
+            got_i = sp.interpolate(x, coord, kernel, width, param)
+            got_g = sp.gridding(y, coord, batch + grid, kernel, width, param)
+        elif case["via"] == "func":
             got_i = sp.interpolate(x, coord, kernel=kernel, width=width, param=param)
             got_g = sp.gridding(y, coord, batch + grid, kernel=kernel, width=width, param=param)
         else:
